@@ -201,8 +201,76 @@ def judgeR (arg impl : String) : String :=
         let want := s!"mml={v} api={v}"
         if impl == want then "ok" else s!"fail want {want}"
 
+/-! `tagl`: whole `#`/`@`/continuation lines with a known meaning -/
+inductive Entry
+  | hash (k blanks v : Bytes) | table (k : Bytes) (ws : List Bytes) | cont (ws : List Bytes)
+
+def parseWords (s : String) : Option (List Bytes) :=
+  if s == "." then some [] else (s.splitOn ",").mapM bytesOfHex
+
+def parseEntry (s : String) : Option Entry :=
+  match s.splitOn ":" with
+  | ["H", k, b, v] => do pure (.hash (← bytesOfHex k) (← bytesOfHex b) (← bytesOfHex v))
+  | ["T", k, ws] => do pure (.table (← bytesOfHex k) (← parseWords ws))
+  | ["K", ws] => do pure (.cont (← parseWords ws))
+  | _ => none
+
+def joinWords (ws : List Bytes) : Bytes :=
+  match ws with
+  | [] => []
+  | w :: rest => w ++ rest.flatMap (32 :: ·)
+
+def entryLine : Entry → Bytes
+  | .hash k b v => 35 :: k ++ b ++ v
+  | .table k ws => 64 :: k ++ 32 :: joinWords ws
+  | .cont ws => 32 :: joinWords ws
+
+def modelL (arg : String) : String :=
+  match (words arg).mapM parseEntry with
+  | none => "bad-request"
+  | some es => model (" ".intercalate (es.map fun e => "M:" ++ hx (entryLine e)))
+
+open TagSpec in
+/-- the documented meaning of the entries: (tags in definition order, key of the open `@` table) -/
+def specEntries : List Entry → List (Bytes × List Bytes) × Option Bytes → List (Bytes × List Bytes) × Option Bytes
+  | [], st => st
+  | e :: es, (m, cur) =>
+    let upd (m : List (Bytes × List Bytes)) (k : Bytes) (f : List Bytes → List Bytes) :=
+      if m.any (·.1 == k) then m.map (fun kv => if kv.1 == k then (kv.1, f kv.2) else kv) else m ++ [(k, f [])]
+    match e with
+    | .hash k _ v => specEntries es (upd m (35 :: k.map lower) (fun _ => [trimRight v]), none)
+    | .table k ws =>
+      let key := 64 :: k.map lower
+      specEntries es (if ws.isEmpty then m else upd m key (· ++ ws), some key)
+    | .cont ws =>
+      match cur with
+      | some key => specEntries es (if ws.isEmpty then m else upd m key (· ++ ws), cur)
+      | none => specEntries es (m, cur)
+
+open TagSpec in
+def entryOk : Entry → Bool
+  | .hash k b v => !k.isEmpty && k.all (fun x => !isSpace x && x != 0) && (k.map lower != "platform".toUTF8.toList) &&
+      !b.isEmpty && b.all (fun x => x == 32 || x == 9) && v.all (· != 0) &&
+      (match v with | x :: _ => !(x == 32 || x == 9) | [] => false)
+  | .table k ws => k.all (fun x => !isSpace x && x != 0) && ws.all (fun w => !w.isEmpty && w.all (fun x => !isSpecial x))
+  | .cont ws => ws.all (fun w => !w.isEmpty && w.all (fun x => !isSpecial x))
+
+def judgeL (arg impl : String) : String :=
+  if hasSub impl "UB:" then "fail undefined behaviour" else
+  match (words arg).mapM parseEntry with
+  | none => "skip"
+  | some es =>
+    if !es.all entryOk then "skip" else
+    let (m, _) := specEntries es ([], none)
+    let order := m.map (·.1)
+    let all := if m.isEmpty then [] else m ++ [(orderKeyBytes, order)]
+    let sorted := sortBy (fun a b => decide (a.1 < b.1)) all
+    let want := "err=- ret=[] map={" ++ ";".intercalate (sorted.map fun kv => hx kv.1 ++ "=" ++ showTag kv.2) ++ "} tracks={} cmds={}"
+    if impl == want then "ok" else s!"fail lines: want {want}"
+
 def handlers : List Driver.Handler :=
   [{ cmd := "tags", model := model, judge := judge },
-   { cmd := "tagr", model := modelR, judge := judgeR }]
+   { cmd := "tagr", model := modelR, judge := judgeR },
+   { cmd := "tagl", model := modelL, judge := judgeL }]
 
 end Driver.TagsD
